@@ -247,6 +247,9 @@ class Stats:
         self.known_hit: list[str] = []
         self.errors: dict[str, int] = {}
         self.extra: dict[str, Any] = {}
+        self.n_disagreements = 0
+        self.n_oracle = 0
+        self.model_runs = 0
 
 
 def case_digest(case: Any) -> str:
@@ -267,8 +270,23 @@ def safe_run_real(mod, case: dict, stats: "Stats | None" = None) -> list[str]:
         return [f"harness-exc {type(e).__name__}: {e}"]
 
 
-def evaluate_cases(mod, cases: list[dict], stats: Stats, *, use_model: bool, sample_every: int = 0) -> None:
-    """run real + model on the cases, diff, oracle. Appends to stats."""
+def evaluate_cases(mod, cases: Iterable[dict], stats: Stats, *, use_model: bool, deadline: float | None = None,
+                   batch: int = 1500) -> None:
+    """run real + model on the cases (in batches, so that memory stays bounded), diff, oracle. Appends to stats.
+    Stops early when `deadline` (time.time() value) has passed."""
+    buf: list[dict] = []
+    for c in cases:
+        buf.append(c)
+        if len(buf) >= batch:
+            _evaluate_batch(mod, buf, stats, use_model)
+            buf = []
+            if deadline is not None and time.time() > deadline:
+                return
+    if buf:
+        _evaluate_batch(mod, buf, stats, use_model)
+
+
+def _evaluate_batch(mod, cases: list[dict], stats: Stats, use_model: bool) -> None:
     reals: list[list[str]] = []
     for c in cases:
         reals.append(safe_run_real(mod, c, stats))
@@ -281,6 +299,7 @@ def evaluate_cases(mod, cases: list[dict], stats: Stats, *, use_model: bool, sam
                 batch.append((str(i), mi[0], mi[1]))
         if batch:
             model_out = run_driver(batch)
+            stats.model_runs += len(batch)
     for i, (c, r) in enumerate(zip(cases, reals)):
         stats.evaluations += 1
         key = mod.nontrivial(c, r) if hasattr(mod, "nontrivial") else "case"
@@ -297,10 +316,16 @@ def evaluate_cases(mod, cases: list[dict], stats: Stats, *, use_model: bool, sam
                 m = mod.model_post(c, m)
             rr = mod.real_for_diff(c, r) if hasattr(mod, "real_for_diff") else r
             if rr != m:
-                stats.disagreements.append({"case": c, "real": r, "model": m, "first_diff": first_diff(rr, m)})
+                stats.n_disagreements += 1
+                if len(stats.disagreements) < 30:
+                    stats.disagreements.append({"case": c, "real": r, "model": m, "first_diff": first_diff(rr, m)})
         why = mod.oracle(c, r)
         if why:
-            stats.oracle_violations.append({"case": c, "real": r, "why": why})
+            stats.n_oracle += 1
+            if len(stats.oracle_violations) < 60:
+                stats.oracle_violations.append({"case": c, "real": r, "why": why})
+    if hasattr(mod, "after_batch"):
+        mod.after_batch()
 
 
 def shrink_case(mod, case: dict, why: str) -> tuple[dict, list[str], str]:
@@ -309,12 +334,13 @@ def shrink_case(mod, case: dict, why: str) -> tuple[dict, list[str], str]:
     if not hasattr(mod, "shrink"):
         return case, real, why
     budget = 400
+    deadline = time.time() + 20.0
     improved = True
-    while improved and budget > 0:
+    while improved and budget > 0 and time.time() < deadline:
         improved = False
         for cand in mod.shrink(case):
             budget -= 1
-            if budget <= 0:
+            if budget <= 0 or time.time() > deadline:
                 break
             try:
                 r = safe_run_real(mod, cand)
@@ -431,16 +457,18 @@ def _check(mod, prop_id: str, tier: str, seed: int, t0: float) -> int:
             obj = json.loads(f.read_text())
             cases.extend(obj if isinstance(obj, list) else [obj])
     n_corpus = len(cases)
-    cases.extend(mod.generate(rng, tier, 1))
-    evaluate_cases(mod, cases, stats, use_model=driver_ok)
+    import itertools
+    evaluate_cases(mod, itertools.chain(cases, mod.generate(rng, tier, 1)), stats, use_model=driver_ok)
 
     broken_tie = bool(stats.disagreements) or bool(proof_problems) or not driver_ok
     escalated = 0
     if broken_tie and not stats.oracle_violations:
         # escalate the failing-input search (oracle on the real code only is what decides)
-        more = list(mod.generate(sub_rng(seed, prop_id, "escalate"), "thorough" if tier == "quick" else tier, 3))
-        escalated = len(more)
-        evaluate_cases(mod, more, stats, use_model=False)
+        # time-boxed: the search is an aid for producing a replay, never a verdict by itself
+        before = stats.evaluations
+        evaluate_cases(mod, mod.generate(sub_rng(seed, prop_id, "escalate"), "thorough" if tier == "quick" else tier, 3),
+                       stats, use_model=False, deadline=time.time() + (60 if tier == "quick" else 240))
+        escalated = stats.evaluations - before
 
     # ---- verdict
     known = known_findings(prop_id)
@@ -468,7 +496,8 @@ def _check(mod, prop_id: str, tier: str, seed: int, t0: float) -> int:
         violations.append(f"VIOLATION property={prop_id} replay={p}")
         if nrep >= 5:
             break
-    if not violations and not stats.known_hit and broken_tie:
+    if not violations and broken_tie:
+        # (a known finding must not mask a proof / correspondence that no longer checks)
         what = {"property": prop_id, "kind": "no-failing-input-found",
                 "broken_proof_obligations": proof_problems,
                 "driver_built": driver_ok,
@@ -494,8 +523,9 @@ def _check(mod, prop_id: str, tier: str, seed: int, t0: float) -> int:
         "rule": getattr(mod, "RULE", ""),
         "samples": stats.samples or [{"note": "no case"}],
         "corpus_cases": n_corpus,
-        "model_disagreements": len(stats.disagreements),
-        "oracle_violations": len(stats.oracle_violations),
+        "model_disagreements": stats.n_disagreements,
+        "model_runs": stats.model_runs,
+        "oracle_violations": stats.n_oracle,
         "known_findings_hit": stats.known_hit,
         "escalated_cases": escalated,
         "harness_exceptions": stats.errors,
@@ -519,6 +549,6 @@ def _check(mod, prop_id: str, tier: str, seed: int, t0: float) -> int:
     for v in violations:
         print(v)
     print(f"{prop_id} {tier} seed={seed}: theorems {discharged}/{obligations}, cases {stats.evaluations} "
-          f"(nontrivial distinct {len(stats.distinct)}), disagreements {len(stats.disagreements)}, "
-          f"oracle violations {len(stats.oracle_violations)}, known {len(stats.known_hit)}, {ev['wall_s']}s")
+          f"(nontrivial distinct {len(stats.distinct)}), disagreements {stats.n_disagreements}, "
+          f"oracle violations {stats.n_oracle}, known {len(stats.known_hit)}, {ev['wall_s']}s")
     return 1 if violations else 0
